@@ -20,7 +20,7 @@ multiply-add).  The code that exists is mirrored, including its quirks:
 * `SenderForBundle`: metadata bundles → (nil, delete); otherwise every connected sender whose
                     `peerPredictabilities[peer][dest] > predictabilities[dest]` and which is not
                     yet in the bundle's sent list (the list grows while iterating).
-Maps are association lists (first match wins; `set` replaces in place or appends).
+Maps are association lists (first match wins; `mset` replaces in place or appends).
 -/
 import Dtn7.Model.F64
 
@@ -45,14 +45,14 @@ section
 variable {κ : Type} [DecidableEq κ] {α : Type}
 
 /-- Go's `m[k]` on a `map[K]float64`: the zero value if absent. -/
-def get (z : α) : List (κ × α) → κ → α
+def mget (z : α) : List (κ × α) → κ → α
   | [], _ => z
-  | (k', v) :: t, k => if k' = k then v else get z t k
+  | (k', v) :: t, k => if k' = k then v else mget z t k
 
 /-- Go's `m[k] = v`. -/
-def set : List (κ × α) → κ → α → List (κ × α)
+def mset : List (κ × α) → κ → α → List (κ × α)
   | [], k, v => [(k, v)]
-  | (k', v') :: t, k, v => if k' = k then (k, v) :: t else (k', v') :: set t k v
+  | (k', v') :: t, k, v => if k' = k then (k, v) :: t else (k', v') :: mset t k v
 
 def lookupVec : List (κ × List (κ × α)) → κ → Option (List (κ × α))
   | [], _ => none
@@ -86,7 +86,7 @@ def transVal (o : Ops α) (beta pOld peerPred otherPeerPred : α) : α :=
 
 /-- `Prophet.encounter(peer)` -/
 def encounter (o : Ops α) (cfg : Cfg α) (st : St κ α) (peer : κ) : St κ α :=
-  { st with own := set st.own peer (encounterVal o cfg.pInit (get o.zero st.own peer)) }
+  { st with own := mset st.own peer (encounterVal o cfg.pInit (mget o.zero st.own peer)) }
 
 /-- `Prophet.ageCron()`: every entry once. -/
 def ageAll (o : Ops α) (cfg : Cfg α) (st : St κ α) : St κ α :=
@@ -94,7 +94,7 @@ def ageAll (o : Ops α) (cfg : Cfg α) (st : St κ α) : St κ α :=
 
 /-- One iteration of the loop in `Prophet.transitivity`. -/
 def transStep (o : Ops α) (cfg : Cfg α) (peer : κ) (own : List (κ × α)) (e : κ × α) : List (κ × α) :=
-  set own e.1 (transVal o cfg.beta (get o.zero own e.1) (get o.zero own peer) e.2)
+  mset own e.1 (transVal o cfg.beta (mget o.zero own e.1) (mget o.zero own peer) e.2)
 
 /-- `Prophet.transitivity(peer)`; the peer's vector is traversed in list order. -/
 def transitivity (o : Ops α) (cfg : Cfg α) (st : St κ α) (peer : κ) : St κ α :=
@@ -129,13 +129,13 @@ def run (o : Ops α) (cfg : Cfg α) (st : St κ α) (evs : List (Ev κ α)) : St
 def peerPred (o : Ops α) (st : St κ α) (peer dest : κ) : α :=
   match lookupVec st.peers peer with
   | none => o.zero
-  | some vec => get o.zero vec dest
+  | some vec => mget o.zero vec dest
 
 /-- The loop of `SenderForBundle`. Returns the chosen senders (in order) and the grown sent list. -/
 def chooseLoop (o : Ops α) (st : St κ α) (dest : κ) : List κ → List κ → List κ → List κ × List κ
   | [], chosen, sent => (chosen, sent)
   | cs :: rest, chosen, sent =>
-    if o.lt (get o.zero st.own dest) (peerPred o st cs dest) then
+    if o.lt (mget o.zero st.own dest) (peerPred o st cs dest) then
       if cs ∈ sent then chooseLoop o st dest rest chosen sent
       else chooseLoop o st dest rest (chosen ++ [cs]) (sent ++ [cs])
     else chooseLoop o st dest rest chosen sent
@@ -158,7 +158,7 @@ def forwardTargets (o : Ops α) (st : St κ α) (isMeta : Bool) (dest : κ) (con
 /-- Every chosen peer advertised a strictly greater predictability for the destination than the
 node's own, and had not been sent the bundle. -/
 def chosenOk (o : Ops α) (st : St κ α) (dest : κ) (sent chosen : List κ) : Bool :=
-  chosen.all fun p => o.lt (get o.zero st.own dest) (peerPred o st p dest) && !(sent.contains p)
+  chosen.all fun p => o.lt (mget o.zero st.own dest) (peerPred o st p dest) && !(sent.contains p)
 
 end
 
